@@ -105,6 +105,8 @@ def classify(fail):
         tags.append("ident-before")
     if v["style"] and v["target"] is not None:
         tags.append("structured+target")
+    if v["target"] is not None and (v["target"].startswith('"//') or v["target"].startswith('" ')):
+        tags.append("target-comment-like-or-blank")
     if v["macro"][0] == 3:
         tags.append("non-ascii-macro")
     if v["after"] == ";" and fail["class"] == "count":
